@@ -355,9 +355,10 @@ impl<T: crate::EventSource> crate::EventSource for TransientSource<T> {
                 source.unregister(poll)?;
                 self.state.replace_state(|_| TransientSourceState::None);
             }
-            TransientSourceState::Replace { new, old } => {
+            TransientSourceState::Replace { new: _, old } => {
+                // only the old source is registered: the new one has not been registered yet,
+                // unregistering it would fail (or worse, remove somebody else's registration)
                 old.unregister(poll)?;
-                new.unregister(poll)?;
                 self.state.replace_state(TransientSourceState::Register);
             }
             TransientSourceState::None => (),
